@@ -3,6 +3,7 @@ package main
 // Parsing of the Gobra-style //@ contract files.
 
 import (
+	"strconv"
 	"fmt"
 	"go/ast"
 	"go/parser"
@@ -55,6 +56,11 @@ type FuncContract struct {
 	IsExtern  bool
 	MaxPaths  int
 	Opts      map[string]string
+}
+
+type FieldBound struct {
+	Type, Field string
+	Max         int64
 }
 
 type LetDef struct {
@@ -117,6 +123,10 @@ type PkgContracts struct {
 	Lemmas []*Lemma
 	Order  []string
 	Devirt map[string]string // interface type name -> concrete receiver type (e.g. "*connectionFlowController")
+	// FieldBounds: type invariants of the simplest kind, "<Type>.<field> <= N" for an unexported integer field of a
+	// struct type of this package. Assumed wherever a value of the type is met OUTSIDE the package (nobody else can
+	// write the field), proved for every value a function of the package under contract returns.
+	FieldBounds []FieldBound
 }
 
 type ContractDB struct {
@@ -126,7 +136,7 @@ type ContractDB struct {
 	Ifaces  map[string]*FuncContract
 }
 
-var topKeywords = map[string]bool{"devirt": true, "const": true, "spec": true, "pred": true, "ghost": true, "func": true, "loop": true, "iface": true, "extern": true, "lemma": true}
+var topKeywords = map[string]bool{"fieldbound": true, "devirt": true, "const": true, "spec": true, "pred": true, "ghost": true, "func": true, "loop": true, "iface": true, "extern": true, "lemma": true}
 var clauseKeywords = map[string]bool{"requires": true, "ensures": true, "modifies": true, "invariant": true, "bodyensures": true, "decreases": true,
 	"arith": true, "inline": true, "panics": true, "nilable": true, "check": true, "trusted": true, "bounded": true, "updates": true,
 	"yields": true, "unclaimed": true, "props": true, "let": true, "pure": true, "fresh": true, "maxpaths": true, "opt": true,
@@ -234,6 +244,17 @@ func funcKey(star, recvType, name string) string {
 
 func (pc *PkgContracts) addItem(it *rawItem, path string) error {
 	switch it.kind {
+	case "fieldbound":
+		ff := strings.Fields(it.head)
+		if len(ff) != 3 || ff[1] != "<=" || !strings.Contains(ff[0], ".") {
+			return fmt.Errorf("fieldbound <Type>.<field> <= <N>")
+		}
+		n, err := strconv.ParseInt(ff[2], 10, 64)
+		if err != nil {
+			return err
+		}
+		i := strings.LastIndex(ff[0], ".")
+		pc.FieldBounds = append(pc.FieldBounds, FieldBound{Type: ff[0][:i], Field: ff[0][i+1:], Max: n})
 	case "devirt":
 		ff := strings.Fields(it.head)
 		if len(ff) != 2 {
@@ -576,11 +597,25 @@ func loadContracts(root, modPath string) (*ContractDB, error) {
 			return nil, err
 		}
 	}
-	for _, pc := range db.Pkgs {
+	// extern and interface contracts are global: one declaration each (a second one elsewhere would make the verdict depend
+	// on which is met first)
+	var pkgPaths []string
+	for p := range db.Pkgs {
+		pkgPaths = append(pkgPaths, p)
+	}
+	sort.Strings(pkgPaths)
+	for _, p := range pkgPaths {
+		pc := db.Pkgs[p]
 		for k, v := range pc.Externs {
+			if prev, dup := db.Externs[k]; dup {
+				return nil, fmt.Errorf("extern contract %s declared twice (%s:%d and %s:%d)", k, prev.File, prev.Line, v.File, v.Line)
+			}
 			db.Externs[k] = v
 		}
 		for k, v := range pc.Ifaces {
+			if prev, dup := db.Ifaces[k]; dup {
+				return nil, fmt.Errorf("interface contract %s declared twice (%s:%d and %s:%d)", k, prev.File, prev.Line, v.File, v.Line)
+			}
 			db.Ifaces[k] = v
 		}
 	}
